@@ -222,12 +222,19 @@ def _no_dup_semantic(a, cs, z) -> bool:
     eqt = body[2][3]
     if not (is_app(eqt, "==") and len(eqt) == 4 and ((eqt[2] in var_forms and eqt[3] == inp) or (eqt[3] in var_forms and eqt[2] == inp))):
         return False
-    if not (is_app(chain, "And") and len(chain) == 3 and one_each(chain[2]) and full_range(chain[2][1][0], sub(n, K(1)))):
+    if not (is_app(chain, "And") and len(chain) == 3 and one_each(chain[2])):
         return False
     Lc, c = chain[2][1][0], chain[2][3]
     lo, hi = (c[2], c[3]) if is_app(c, "<") and len(c) == 4 else (c[3], c[2]) if is_app(c, ">") and len(c) == 4 else (None, None)
-    return lo is not None and lo[0] == "idx" and hi[0] == "idx" and lo[1] == a and hi[1] == a \
-        and same_int(lo[2], elem(Lc)) and same_int(hi[2], add(elem(Lc), K(1)))
+    if not (lo is not None and lo[0] == "idx" and hi[0] == "idx" and lo[1] == a and hi[1] == a and same_int(hi[2], add(lo[2], K(1)))):
+        return False
+    # the smaller position p = loop element + k runs over 0 .. n - 2, whatever the range starts from
+    from sa.decide import lin
+    lp_ = lin(lo[2])
+    if not (Lc[3][0] == "range" and len(Lc[3]) == 3 and len(lp_.coef) == 1 and lp_.coef.get(norm(elem(Lc))) == 1):
+        return False
+    k_ = K(int(lp_.const))
+    return same_int(add(Lc[3][1], k_), K(0)) and same_int(add(Lc[3][2], k_), sub(n, K(1)))
 
 
 def _passes_suffice(upper) -> bool:
@@ -396,7 +403,7 @@ def _sort_net_inline(ctx):
                     # the inner loop: positions p = 0 .. n - 2
                     e_i = elem(Li)
                     lp_ = lin(norm(px))
-                    ok_pos = Li[3][0] == "range" and len(lp_.coef) == 1 and lp_.coef.get(e_i) == 1 \
+                    ok_pos = Li[3][0] == "range" and len(lp_.coef) == 1 and lp_.coef.get(norm(e_i)) == 1 \
                         and same_int(add(Li[3][1], K(int(lp_.const))), K(0)) \
                         and same_int(add(as_len(Li[3][2]), K(int(lp_.const))), sub(n_len, K(1)))
                     if not ok_pos:
